@@ -141,7 +141,7 @@ func TestC03_UDP(t *testing.T) {
 	if kit.Tier() == "thorough" {
 		o = uOpts{maxKeys: 60, maxOps: 30}
 	}
-	p := kit.Prop[UCase]{ID: "C03", Name: "UDP", Quick: 900, Thorough: 60000, Gen: genUCase(o),
+	p := kit.Prop[UCase]{ID: "C03", Name: "UDP", Quick: 3000, Thorough: 300000, Gen: genUCase(o),
 		Run: func(c UCase, info *kit.Info) *kit.Finding { return runUDP(c, info, false, false) }}
 	p.Execute(t)
 }
@@ -151,28 +151,28 @@ func TestC04_NAT(t *testing.T) {
 	if kit.Tier() == "thorough" {
 		o.maxOps = 40
 	}
-	p := kit.Prop[UCase]{ID: "C04", Name: "NAT", Quick: 700, Thorough: 40000, Gen: genUCase(o),
+	p := kit.Prop[UCase]{ID: "C04", Name: "NAT", Quick: 2400, Thorough: 300000, Gen: genUCase(o),
 		Run: func(c UCase, info *kit.Info) *kit.Finding { return runUDP(c, info, true, false) }}
 	p.Execute(t)
 }
 
 func TestC04_NATExpiry(t *testing.T) {
 	o := uOpts{maxKeys: 4, maxOps: 14, manyClients: true, expiry: true, sizes: []int{0, 1, 64, 1400}}
-	p := kit.Prop[UCase]{ID: "C04", Name: "NATExpiry", Quick: 120, Thorough: 4000, Gen: genUCase(o),
+	p := kit.Prop[UCase]{ID: "C04", Name: "NATExpiry", Quick: 200, Thorough: 40000, Gen: genUCase(o),
 		Run: func(c UCase, info *kit.Info) *kit.Finding { return runUDP(c, info, true, false) }}
 	p.Execute(t)
 }
 
 func TestC16_Metrics(t *testing.T) {
 	o := uOpts{maxKeys: 6, maxOps: 20, manyClients: true}
-	p := kit.Prop[UCase]{ID: "C16", Name: "Metrics", Quick: 700, Thorough: 40000, Gen: genUCase(o),
+	p := kit.Prop[UCase]{ID: "C16", Name: "Metrics", Quick: 2400, Thorough: 300000, Gen: genUCase(o),
 		Run: func(c UCase, info *kit.Info) *kit.Finding { return runUDP(c, info, false, true) }}
 	p.Execute(t)
 }
 
 func TestC16_MetricsExpiry(t *testing.T) {
 	o := uOpts{maxKeys: 4, maxOps: 14, manyClients: true, expiry: true, sizes: []int{0, 1, 64, 1400}}
-	p := kit.Prop[UCase]{ID: "C16", Name: "MetricsExpiry", Quick: 120, Thorough: 4000, Gen: genUCase(o),
+	p := kit.Prop[UCase]{ID: "C16", Name: "MetricsExpiry", Quick: 200, Thorough: 30000, Gen: genUCase(o),
 		Run: func(c UCase, info *kit.Info) *kit.Finding { return runUDP(c, info, false, true) }}
 	p.Execute(t)
 }
